@@ -135,7 +135,7 @@ Section Frame.
       cwf c -> CI c -> tbase t -> TI c t -> stmt_safe g fx nn ck s = true ->
       exec_stmt g fx c t s = Ok t' -> TI c t'.
   Hypothesis Hcommit : forall c t,
-      cwf c -> CI c -> tbase t -> TI c t -> validate c t = true -> t_rows t <> [] -> CI (apply_writes c t).
+      cwf c -> CI c -> tbase t -> TI c t -> validate g c t = true -> t_rows t <> [] -> CI (apply_writes c t).
   Hypothesis Hstable : forall c c' t, cwf c -> cwf c' -> tbase t -> TI c t -> cstep c c' -> TI c' t.
   Hypothesis Hddl : forall c u c', cwf c -> CI c -> ddl fx c u = Ok c' -> CI c'.
 
@@ -143,11 +143,11 @@ Section Frame.
     cwf (s_c st) /\ CI (s_c st) /\ forall sid t, In (sid, t) (s_tx st) -> tbase t /\ TI (s_c st) t.
 
   Lemma commit_SI c t c' :
-    cwf c -> CI c -> tbase t -> TI c t -> commit c t = Ok c' -> cwf c' /\ CI c' /\ (c' = c \/ cstep c c').
+    cwf c -> CI c -> tbase t -> TI c t -> commit g c t = Ok c' -> cwf c' /\ CI c' /\ (c' = c \/ cstep c c').
   Proof.
     intros W C B T H. unfold commit in H. destruct (t_rows t) as [|w wr] eqn:E.
     - inversion H; subst; auto.
-    - destruct (validate c t) eqn:Ev; try discriminate. inversion H; subst; clear H.
+    - destruct (validate g c t) eqn:Ev; try discriminate. inversion H; subst; clear H.
       destruct B as [B1 B2]. split; [|split].
       + apply cwf_apply_writes; auto.
       + apply Hcommit; auto. split; auto. congruence.
@@ -208,7 +208,7 @@ Section Frame.
       split; [exact W' | split; [exact C'|]]. simpl. apply (others_stable (s_c st) c'); auto.
     - (* commit *)
       apply slookup_in in El. destruct (T _ _ El) as [B Tt].
-      destruct (commit (s_c st) t) as [c'| |] eqn:Ec; simpl;
+      destruct (commit g (s_c st) t) as [c'| |] eqn:Ec; simpl;
         try solve [split; [exact W | split; [exact C | simpl; eauto]]].
       destruct (commit_SI _ _ _ W C B Tt Ec) as (W' & C' & S).
       split; [exact W' | split; [exact C'|]]. simpl. exact (others_stable (s_c st) c' _ W W' S (Trm (fst ev))).
